@@ -67,6 +67,9 @@ def stepFamilies (st : St) (cmd : List String) (got : String) : St × Verdict :=
   | none =>
   match stepBsiBig st cmd got with
   | some r => r
+  | none =>
+  match stepByteIn st cmd got with
+  | some r => r
   | none => (st, if got.startsWith "skip" then none else some "skip")
 
 /-- plane-level BSI tracking runs alongside the command families: the extra checks use the state BEFORE the line -/
@@ -83,7 +86,7 @@ def stepAll (st : St) (cmd : List String) (got : String) : St × Verdict :=
 def pureQueries : List String :=
   ["card", "empty", "has", "min", "max", "rank", "sel", "cir", "iwi", "eq", "toarr", "toexarr", "nv", "pv", "nav", "pav",
    "andcard", "orcard", "isect", "wf", "size", "ser", "rd", "wrfail", "wrfailall", "rdsplit", "trunc", "chkeq", "dump", "dig", "kern", "kernwf", "popcnt", "dense", "densechk", "safe", "zdetach", "zsame", "frz", "frzsmall", "frzwfail", "fchk", "fgc",
-   "sermany64", "aggmany", "sched", "concdec", "concagg", "concagg64", "bplanes", "hasnext", "peek?", "peek!", "iterate", "values", "backward", "unset", "ranges", "l2lazy", "l2dense", "l2ser64", "l2q", "l2q2", "l2cksum", "l2toarr", "l2toex", "l2stats", "l2iterate", "l2seq", "l2ranges", "hasnext64", "peek64", "bcmpabs", "l2q64"]
+   "sermany64", "aggmany", "sched", "concdec", "concagg", "concagg64", "bplanes", "hasnext", "peek?", "peek!", "iterate", "values", "backward", "unset", "ranges", "l2lazy", "l2dense", "l2ser64", "l2q", "l2q2", "l2cksum", "l2toarr", "l2toex", "l2stats", "l2iterate", "l2seq", "l2ranges", "hasnext64", "peek64", "bcmpabs", "l2q64", "bytein"]
 
 def aggOps : List String := ["fastor", "fastand", "heapor", "heapxor", "paror", "parand", "parheapor", "andany"]
 
